@@ -81,6 +81,34 @@ def labels(ctx):
                       'the returned secret is not derived as kdf(seed, label) in %s: inputs %s' % (key, evs), str(evs), F.fn(key).where())
 
 
+def frame_parts(fb):
+    """Operands concatenated, in order, into the byte string a function builds: `[a, b, ..].concat()`, or a Vec filled by a
+    dominance-ordered sequence of extend_from_slice / extend calls.  None when neither form (or more than one) is present."""
+    cc = fb.calls(r'::concat$')
+    ext = fb.calls(r'^std::vec::Vec::<u8>::extend_from_slice$', r'^std::iter::Extend::extend$')
+    ext = [c for c in ext if 'Vec<u8>' in fb.local_ty(op_local(c.args[0]) or 0)]
+    if len(cc) == 1 and not ext:
+        sl = backward_slice(fb, [cc[0].args[0]], follow_mutarg=False)
+        arr = [rv for rv in sl.aggs if 'array' in rv]
+        if len(arr) != 1:
+            return None
+        return list(arr[0]['ops'])
+    if ext and not cc:
+        vecs = set()
+        for c in ext:
+            ts = fb.refs().get(op_local(c.args[0]), []) if is_place(c.args[0]) else []
+            vecs.add(ts[0][0]['l'] if len(ts) == 1 and not ts[0][0]['p'] else None)
+        if len(vecs) != 1 or None in vecs:
+            return None
+        # total order by dominance: each call's block dominates the next one's
+        order = sorted(ext, key=lambda c: len([d for d in ext if d is not c and fb.block_dominates(d.b, c.b)]))
+        for x, y in zip(order, order[1:]):
+            if not fb.block_dominates(x.b, y.b) or x.b == y.b:
+                return None
+        return [c.args[1] for c in order]
+    return None
+
+
 @rule('C12', 'framing')
 def framing(ctx):
     F = ctx.F
@@ -92,19 +120,16 @@ def framing(ctx):
     ctx.floor(len(sites), 2, 'encrypting sites (AE::encrypt, header generate)')
     for fb in sites:
         root = fb.root or fb.key
-        cc = fb.calls(r'::concat$')
         enc = fb.calls(c07.DEM_ENC)
-        ok = len(cc) == 1 and len(enc) == 1
+        parts = frame_parts(fb)
+        ok = parts is not None and len(enc) == 1
         order = None
         nlen = None
         if ok:
-            l = op_local(cc[0].args[0])
-            sl = backward_slice(fb, [cc[0].args[0]], follow_mutarg=False)
-            arr = [rv for rv in sl.aggs if 'array' in rv and len(rv['ops']) == 2]
-            ok = len(arr) == 1
+            ok = len(parts) == 2
             if ok:
-                a0 = backward_slice(fb, [arr[0]['ops'][0]], follow_mutarg=False)
-                a1 = backward_slice(fb, [arr[0]['ops'][1]], follow_mutarg=False)
+                a0 = backward_slice(fb, [parts[0]], follow_mutarg=False)
+                a1 = backward_slice(fb, [parts[1]], follow_mutarg=False)
                 first_nonce = bool(a0.has_call(r'::as_bytes$')) and bool(a0.has_call(r'RandomFixedSizeCBytes<\w+>>::new$|::new$'))
                 second_ct = any(x is enc[0] for x in a1.calls)
                 ok = first_nonce and second_ct and not any(x is enc[0] for x in a0.calls)
